@@ -109,6 +109,8 @@ pub struct SzxOpts {
     pub fe: Option<u8>,
     /// chFlags of the AY chunk; None = 128K-style AY (2) in 48K files, 0 in 128K files
     pub ay_flags: Option<u8>,
+    /// dwCyclesStart of the Z80R chunk: T-states since the start of the frame at which the snapshot was taken
+    pub cycles: u32,
 }
 
 impl Default for SzxOpts {
@@ -124,6 +126,7 @@ impl Default for SzxOpts {
             lowercase_ids: false,
             fe: None,
             ay_flags: None,
+            cycles: 0,
         }
     }
 }
@@ -143,7 +146,7 @@ pub fn szx(d: &MachineDesc, o: &SzxOpts) -> Vec<u8> {
         z.extend(w.to_le_bytes());
     }
     z.extend([c.i, c.r, c.iff1 as u8, c.iff2 as u8, c.im]);
-    z.extend(0u32.to_le_bytes()); // dwCyclesStart
+    z.extend(o.cycles.to_le_bytes()); // dwCyclesStart
     z.push(0); // chHoldIntReqCycles
     z.push((o.eilast as u8) | ((o.halted as u8) << 1));
     z.extend(0u16.to_le_bytes()); // memptr
